@@ -663,6 +663,8 @@ def run(m: Model, r: Report, tier: str) -> None:
                     f"echo length {n} exceeds what request ({pr_req}) and response ({pr_resp}) layouts of this service carry", loc=f.loc)
 
     from sa.codec import request_envelope_rule
+    from sa.uds_rules import sub_function_split_rule
+    sub_function_split_rule(m, r, "R15")
     request_envelope_rule(m, r, "R15", reg, "parse_pdu re-parses request.pdu; a request that fails its own length gate degrades to RawRequest and every positive reply of "
                           "the service is accepted, whatever identifier / counter it echoes")
     # ---------------------------------------------------------------- R6
